@@ -64,7 +64,9 @@ def fix(v):
     if v == ['other', 'callerval']:
         return ['c']
     if v == ['s', 'K']:
-        return ['t', -3]      # the key an mdict feeds to its key spec
+        return ['t', -3, 1]      # the keys an mdict feeds to its key spec
+    if v == ['s', 'L']:
+        return ['t', -3, 2]
     if v and v[0] == 'other':
         return ['t', -1]      # a container built during the call
     return v
@@ -192,9 +194,9 @@ def match_finding(f, case):
 def main(tier, seed):
     check = vlib.Check(PROP, tier, seed)
     runs = {'quick': [dict(MaxDepth=2, SecondDepth=0, Family='"scope"'), dict(MaxDepth=2, SecondDepth=0, Family='"vars"'),
-                      dict(MaxDepth=2, SecondDepth=1, Family='"ref"')],
+                      dict(MaxDepth=2, SecondDepth=1, Family='"ref"'), dict(MaxDepth=2, SecondDepth=0, Family='"kw"')],
             'thorough': [dict(MaxDepth=2, SecondDepth=1, Family='"scope"'), dict(MaxDepth=2, SecondDepth=1, Family='"vars"'),
-                         dict(MaxDepth=2, SecondDepth=1, Family='"ref"')]}[tier]
+                         dict(MaxDepth=2, SecondDepth=1, Family='"ref"'), dict(MaxDepth=2, SecondDepth=0, Family='"kw"')]}[tier]
     results = []
     for consts in runs:
         res, rs = vlib.map_states('MC_C07', worker, constants=consts)
